@@ -29,8 +29,8 @@ checks["C03"] = {
  "assumptions": BLOCK_ASSUME, "outside": OUT}
 checks["C05"] = {
  "level": "model_checking",
- "jobs": [job("Verif_C05_TLSF_Lemmas", list(range(15)), list(range(15))), job("Verif_C05_TLSF_Search", [10, 11, 32], [0, 1, 10, 11, 22, 32])],
- "bounds_quick": "lemmas at full 64-bit width for 15 block sizes (1 .. 2^62+12345): list index and memory class monotone in the size, in range of the arrays sized by Init, next-list rounding only reaches fitting sizes; search: recipe T(2,F,pi) on 256/320-byte blocks (2 allocations, 0-2 frees in any order), then one request with symbolic size, alignment 2^0..2^6, strategy, optional symbolic offset bound, compared with an exhaustive scan of the region list; bucket-boundary recipe (light): 1000-byte block, two holes of symbolic size 129..256 separated by live allocations, symbolic trailing free space 0..128, request of symbolic size 129..256, every strategy",
+ "jobs": [job("Verif_C05_TLSF_Lemmas", list(range(15)), list(range(15))), job("Verif_C05_TLSF_Search", [10, 11, 32, 40], [0, 1, 10, 11, 22, 32, 40, 41])],
+ "bounds_quick": "lemmas at full 64-bit width for 15 block sizes (1 .. 2^62+12345): list index and memory class monotone in the size, in range of the arrays sized by Init, next-list rounding only reaches fitting sizes; search: recipe T(2,F,pi) on 256/320-byte blocks (2 allocations, 0-2 frees in any order), then one request with symbolic size, alignment 2^0..2^6, strategy, optional symbolic offset bound, compared with an exhaustive scan of the region list; bucket-boundary recipe (light): 1000-byte block, two holes of symbolic size 129..256 separated by live allocations, symbolic trailing free space 0..128, request of symbolic size 129..256, every strategy; merge recipe: 256-byte block with three holes of 60, 50 and 40 bytes in one free list (freed in every order), 8 free bytes at the end, then two arbitrary operations (free of any live allocation, or allocation of a symbolic size) and the request under test",
  "bounds_thorough": "search additionally from T(n<=4,F,pi) and from the bucket-boundary recipe on a 1000-byte block (two holes of symbolic size 1..300, symbolic trailing free space 0..200, request size symbolic, every strategy): covers every combination of free-list buckets of hole and request sizes",
  "assumptions": BLOCK_ASSUME + ["granularity rules in force: none (null handler); the granularity-aware variant is part of C09's harness"], "outside": OUT}
 checks["C06"] = {
